@@ -30,6 +30,7 @@ from abc import ABC, abstractmethod
 from random import Random
 import time
 from typing import Dict, List
+import zlib
 
 from pydsol.core.utils import get_module_logger
 import math
@@ -757,5 +758,5 @@ class SimpleStreamUpdater(StreamUpdater):
         if replication_nr < 0:
             raise ValueError("replication_nr < 0")
         stream.set_seed(stream.original_seed() + replication_nr * 
-                        (1_000_037 + hash(stream_id)))
+                        (1_000_037 + zlib.crc32(stream_id.encode('utf-8'))))
 
